@@ -42,7 +42,7 @@ KQ_RULE = ("the REAL backend_kqueue.go + fsnotify.go + shared.go + system_bsd.go
 PROPS = {
     "C15": {
         "lean": ["FsnVerif.Props.C15"],
-        "lean_support": ["FsnVerif.Proofs.BitsLemmas", "FsnVerif.Proofs.BridgeTables", "FsnVerif.Model.Bits"],
+        "lean_support": ["FsnVerif.Proofs.BitsLemmas", "FsnVerif.Proofs.BridgeTables", "FsnVerif.Proofs.BridgeEventOp", "FsnVerif.Model.Bits"],
         "stages": [{"name": "pure", "cmd": "pure", "what": "C15"}],
         "rule": "inotify newEvent on every subset of the 12 event bits (with/without IN_ISDIR), every single bit and random "
                 "32-bit masks; AddWith for all 2^9 op subsets x noFollow against the real kernel (stored flags and "
@@ -60,7 +60,7 @@ PROPS = {
     },
     "C02": {
         "lean": ["FsnVerif.Props.C02"],
-        "lean_support": ["FsnVerif.Proofs.InotifyLemmas", "FsnVerif.Proofs.ALLemmas", "FsnVerif.Model.Inotify"],
+        "lean_support": ["FsnVerif.Proofs.InotifyLemmas", "FsnVerif.Proofs.ALLemmas", "FsnVerif.Proofs.BridgeEventOp", "FsnVerif.Model.Inotify"],
         "stages": [{"name": "inject", "cmd": "inject", "what": "C02", "sessions": True},
                    {"name": "live", "cmd": "live", "what": "C02", "sessions": True}],
         "rule": INJECT_RULE + LIVE_RULE,
